@@ -127,6 +127,7 @@ class Boom(Exception):
 
 
 log_reset = []
+log_bad = []
 
 
 def build(rng, lines, used, closure, kwdefault):
@@ -139,6 +140,14 @@ def build(rng, lines, used, closure, kwdefault):
         log.append(("tick", tag))
         return v
 
+    bad_entries = []
+
+    def ACCEPT(name, x, T, y):
+        # C01: a body is only ever entered with arguments its annotations accept
+        if not isinstance(x, T) or not isinstance(y, int):
+            bad_entries.append((name, repr(x)[:40], repr(y)[:20]))
+
+    log_bad.append(bad_entries)
     entered = [0]
 
     def ENTERED():
@@ -172,12 +181,15 @@ def build(rng, lines, used, closure, kwdefault):
     def leafs(glb):
         ex = """
 def m_int(x: int, y: int = 3{kw}):
+    ACCEPT('m_int', x, int, y)
     TICK(('int', x), None)
     return ('I', x{kwr})
 def m_str(x: str, y: int = 3{kw}):
+    ACCEPT('m_str', x, str, y)
     TICK(('str', x), None)
     return ('S', x{kwr})
 def m_tup(x: tuple, y: int = 3{kw}):
+    ACCEPT('m_tup', x, tuple, y)
     TICK(('tup', len(x)), None)
     return ('T', len(x){kwr})
 def m_obj(x: object, y: int = 3{kw}):
@@ -187,7 +199,8 @@ def m_obj(x: object, y: int = 3{kw}):
         exec(compile(ex, f"<verif-leafs-{_uid[0]}>", "exec"), glb)
 
     # --- the real thing
-    glb = {"TICK": TICK, "ENTERED": ENTERED, "Boom": Boom, "recurse": recurse, "call_next": call_next, "__name__": "verif_rw"}
+    log_bad[:] = log_bad[-1:]
+    glb = {"TICK": TICK, "ACCEPT": ACCEPT, "ENTERED": ENTERED, "Boom": Boom, "recurse": recurse, "call_next": call_next, "__name__": "verif_rw"}
     leafs(glb)
     ov = Ovld()
     for n in ("m_int", "m_str", "m_tup", "m_obj"):
@@ -199,7 +212,7 @@ def m_obj(x: object, y: int = 3{kw}):
     ov.register(glb["m_list"])
     glb["F"] = ov.dispatch
     # --- the reference: same source, recurse / call_next / F bound to ordinary callables
-    rglb = {"TICK": TICK, "ENTERED": ENTERED, "Boom": Boom, "__name__": "verif_rw_ref"}
+    rglb = {"TICK": TICK, "ACCEPT": (lambda *a: None), "ENTERED": ENTERED, "Boom": Boom, "__name__": "verif_rw_ref"}
     leafs(rglb)
     ov_all = Ovld()
     ov_rest = Ovld()
@@ -284,7 +297,13 @@ def worker(payload):
             o["n"] += 1
             if len(g.used) > 1:
                 o["nontrivial"] += 1
+            del log_bad[-1][:]
             got = outcome(ov, args, kwargs, log, fname)
+            o1 = out["oracles"].setdefault("C01", {"n": 0, "nontrivial": 0, "viol": [], "known": {}})
+            o1["n"] += 1
+            o1["nontrivial"] += 1 if len(g.used) > 1 else 0
+            if log_bad[-1]:
+                o1["viol"].append({"law": "method entered with an argument its annotation excludes", "entries": list(log_bad[-1]), **wit, "args": repr(args), "src": src})
             want = outcome(ref, args, kwargs, log, rname)
             if got != want:
                 w2 = {**wit, "args": repr(args), "kwargs": kwargs, "got": got, "want": want, "src": src}
